@@ -5,7 +5,7 @@ import devgen, agen
 from agen import bits
 from devprop import DevProp
 
-ACT = {"octave_up": 59, "octave_down": 60, "semitone_up": 61, "semitone_down": 62, "channel_up": 63, "channel_down": 64}
+ACT = {"octave_up": 59, "octave_down": 60, "semitone_up": 61, "semitone_down": 62, "channel_up": 63, "channel_down": 64, "cc_learning": 65}
 
 
 def a(code, val, sub=""):
@@ -127,6 +127,18 @@ class C08(DevProp):
                     ev = [k(away, 1), k(away, 0), a(agen.ABS_X, z[0]), k(back, 1), k(back, 0), a(agen.ABS_X, z[1]), a(agen.ABS_X, z[0]),
                           a(agen.ABS_X, zr["Mid"][0]), a(agen.ABS_X, z[1]), a(agen.ABS_X, zr["Mid"][0])]
                     cases.append({"cfg": cfg, "abs": [{"code": agen.ABS_X, "min": mn, "max": mx}], "events": ev, "tag": "out-of-range-at-entry"})
+        # axes are independent: several emulating axes whose code numbers are prefixes of one another as decimal strings (1 / 16 / 17, 2 / 24 /
+        # 26) - every ordered pair: one held while the other reports centre, a direction, centre again
+        codes = [agen.ABS_Y, agen.ABS_HAT0X, agen.ABS_HAT0Y, agen.ABS_Z, 24, 26]
+        ans = [agen.analog(c, "key", note=40 + 3 * i, noteneg=41 + 3 * i, off=i % 3, offneg=(i + 1) % 3, bidi=True) for i, c in enumerate(codes)]
+        cfgi = agen.base_cfg(ans, actions=[{"code": c, "action": n_} for n_, c in ACT.items()], cmode="interrupt", channel=1)
+        absi = [{"code": c, "min": -1, "max": 1} for c in codes]
+        for x in codes:
+            ev = []
+            for y in codes:
+                if x != y:
+                    ev += [a(x, 1), a(y, 0), a(y, -1), a(y, 0), a(y, 1), a(x, -1), a(y, 0), a(x, 0)]
+            cases.append({"cfg": cfgi, "abs": absi, "events": ev, "tag": "independent-axes"})
         # two sources on one pitch: two emulating axes whose notes coincide only after a transposition between the deflections, and an
         # emulating axis against an ordinary key on the same (channel, pitch) - in every collision mode (the lifecycle of an emulated key is
         # its own: on at half travel, off on the way back, Note Off = the pair that was sent), every release order
